@@ -10,6 +10,10 @@ ordered memory access list with values, the idle flag and the interrupt latches 
 Generator clause: `gen` records are real GenerateTestCasesToFile vectors loaded the way test_verifier
 loads them; additionally every data access must fall inside the two compared windows, the outcome must
 not be an abort, and pc must advance by the instruction length.
+Replay clause, spec -> impl: for a sample of those vectors TLC (TvReplay.tla) loads the `before` state through
+the bit-field views, runs one CoreCycle and prints what test_verifier compares; packed as `after` states the
+predictions are judged by the REPOSITORY'S OWN src/test_verifier built from the working tree (all must pass;
+a copy with one compared field altered per case must fail everywhere, else the oracle is gone).
 """
 import os
 import vlib
@@ -46,7 +50,10 @@ def run(ck):
     # generator clause: the project's own GenerateTestCasesToFile output (about 82k vectors, 4 per enabled opcode),
     # loaded as the project's verifier loads it; IsaTrace additionally requires no abort, pc advance = length and
     # every data access inside the two compared windows
-    gfiles = isa_common.generator_clause(ck)
+    # ... and, the other way round, specification -> implementation through the repository's own verifier: TLC predicts the
+    # state test_verifier compares for a sample of the same vectors (TvReplay.tla: loading through the bit-field views, one
+    # CoreCycle); the repository's test_verifier must pass every predicted case and fail every case with one altered field
+    gfiles = isa_common.generator_clause(ck, replay=True)
     ck.sample_lines(gfiles[0], 1, skip=50)
     ck.assumptions += ['the TLA+ instruction semantics is a hand transcription of the PINNED interpreter.h (C01 names the '
                        'pinned interpreter as the hardware-validated reference); it is frozen in /verif and never derived '
@@ -58,4 +65,14 @@ def run(ck):
 
 
 def replay(ck, path):
-    ck.validate_traces('IsaTrace', 'Trace_Isa.cfg', [path.split('#')[0]])
+    p = path.split('#')[0]
+    if p.endswith('.good.bin'):
+        # a TestCase file whose `after` states are the specification's predictions: judged by the repository's own verifier
+        import vlib
+        ck.build('test_verifier')
+        r = vlib.sh('%s %s' % (ck.bin('test_verifier'), p), timeout=1800)
+        print(r.stdout[-4000:])
+        if r.returncode != 0:
+            ck.violation('replay:test_verifier', p, 'test_verifier: ' + (r.stdout.strip().splitlines() or ['?'])[-1])
+        return
+    ck.validate_traces('IsaTrace', 'Trace_Isa.cfg', [p])
